@@ -47,6 +47,9 @@ type scope struct {
 
 	// State
 	disposed int32 // atomic
+
+	// closed is closed once Close has finished; Close calls that lose the race wait for it
+	closed chan struct{}
 }
 
 func newScope(rootProvider *provider, parent *scope, ctx context.Context, cancel context.CancelFunc) (*scope, error) {
@@ -65,6 +68,7 @@ func newScope(rootProvider *provider, parent *scope, ctx context.Context, cancel
 		instances:    make(map[instanceKey]any, 8), // Pre-size for typical usage
 		disposables:  make([]Disposable, 0, 4),
 		children:     make(map[*scope]struct{}, 2),
+		closed:       make(chan struct{}),
 	}
 
 	ctx = context.WithValue(ctx, scopeContextKey{}, s)
@@ -244,8 +248,14 @@ func (s *scope) CreateScope(ctx context.Context) (Scope, error) {
 // Close disposes the scope and all its resources
 func (s *scope) Close() error {
 	if !atomic.CompareAndSwapInt32(&s.disposed, 0, 1) {
-		return nil // Already closed
+		// Already closed, or being closed by another goroutine - typically the
+		// scope's own cancellation watcher, which the parent's Close wakes up.
+		// Return only when the scope really is closed, so that a parent never
+		// disposes its instances (nor the provider its singletons) too early.
+		<-s.closed
+		return nil
 	}
+	defer close(s.closed)
 
 	var errs []error
 
